@@ -592,11 +592,18 @@ func (i *IRCServer) GetNick(sessionid robust.Id) string {
 	return ""
 }
 
-// ThrottleUntil returns the last activity of |sessionid| or the zero time.
-func (i *IRCServer) ThrottleUntil(sessionid robust.Id) time.Time {
+// postMessageCooloff returns the PostMessageCooloff which is in force.
+func (i *IRCServer) postMessageCooloff() time.Duration {
 	i.ConfigMu.RLock()
 	defer i.ConfigMu.RUnlock()
-	cooloff := time.Duration(i.Config.PostMessageCooloff)
+	return time.Duration(i.Config.PostMessageCooloff)
+}
+
+// ThrottleUntil returns the last activity of |sessionid| or the zero time.
+func (i *IRCServer) ThrottleUntil(sessionid robust.Id) time.Time {
+	// ConfigMu must not be held while waiting for sessionsMu: everybody else
+	// (e.g. Marshal) locks sessionsMu first, then ConfigMu.
+	cooloff := i.postMessageCooloff()
 	if cooloff == 0 {
 		return time.Time{}
 	}
